@@ -40,8 +40,10 @@ pub fn rewrite_item(item: &mut Item, unit: &Unit, log: &mut Log, lifted: &mut Ve
             rw.visit_expr_mut(&mut c.expr);
         }
         Item::Static(c) => {
-            c.attrs.clear();
-            c.vis = parse_quote!(pub);
+            // R27: an immutable `static` of a Copy type is read like a `const`
+            let (id, ty, ex) = (&c.ident, &c.ty, &c.expr);
+            log.entries.push(("R27".into(), c.ident.to_string(), "immutable static -> const".into()));
+            *item = parse_quote!(pub const #id: #ty = #ex;);
         }
         Item::Type(t) => {
             t.attrs.clear();
@@ -262,6 +264,24 @@ impl<'a> Body<'a> {
         self.unit.opts.get(key).and_then(|v| v.as_array()).map(|a| a.iter().filter_map(|x| x.as_str().map(|s| s.to_string())).collect()).unwrap_or_default()
     }
 
+    fn rule_map_sum_applies(&self, l: &Local) -> bool {
+        let Some(init) = l.init.as_ref() else { return false };
+        let Expr::MethodCall(sum) = &*init.expr else { return false };
+        if sum.method != "sum" {
+            return false;
+        }
+        let Expr::MethodCall(map) = &*sum.receiver else { return false };
+        map.method == "map" && matches!(&*map.receiver, Expr::MethodCall(it) if it.method == "iter")
+    }
+
+    fn outline_hit(&self, l: &Local) -> Option<(crate::OutlineSpec, String)> {
+        let Pat::Ident(pi) = &l.pat else { return None };
+        let short = self.func.rsplit("::").next().unwrap();
+        let spec = self.unit.outline.iter().find(|o| o.func == short && pi.ident == o.var)?;
+        let init = l.init.as_ref()?;
+        Some((spec.clone(), init.expr.to_token_stream().to_string()))
+    }
+
     fn fresh(&mut self) -> usize {
         let k = self.counter;
         self.counter += 1;
@@ -269,6 +289,19 @@ impl<'a> Body<'a> {
     }
 
     fn finish_fn(&mut self, sig: &mut Signature, block: &mut Block) {
+        // R12 for a tail expression: `var = "<tail>"`
+        let short = self.func.rsplit("::").next().unwrap().to_string();
+        if let Some(spec) = self.unit.outline.iter().find(|o| o.func == short && o.var == "<tail>").cloned() {
+            if let Some(Stmt::Expr(e, None)) = block.stmts.last_mut() {
+                let text = e.to_token_stream().to_string();
+                let h = fnv64(&text);
+                if !spec.sha.is_empty() && spec.sha != format!("{h:016x}") {
+                    fail(&format!("outlined text of {} changed (hash {h:016x} != pinned {}): its contract is checked in lane K only; undecided here", spec.name, spec.sha));
+                }
+                *e = syn::parse_str(&format!("{}({})", spec.name, spec.args)).unwrap_or_else(|er| fail(&format!("bad outline spec: {er}")));
+                self.note("R12", format!("tail iterator chain outlined into {}(..); chain text hash {h:016x}", spec.name));
+            }
+        }
         // R2': after a `TLS.with(|x| { .. return; .. })` closure was inlined, its bare `return;` is an early exit to the
         // function's tail expression E (side-effect free: a plain variable)
         if matches!(sig.output, ReturnType::Default) {
@@ -489,6 +522,9 @@ impl<'a> Body<'a> {
                 if let Some(v) = self.rule_rev_range(fl) {
                     return v;
                 }
+                if let Some(v) = self.rule_custom_iter(fl) {
+                    return v;
+                }
                 if let Some(v) = self.rule_slice_iter(fl) {
                     return v;
                 }
@@ -522,6 +558,19 @@ impl<'a> Body<'a> {
                 }
                 vec![stmt]
             }
+            Stmt::Local(l) if self.outline_hit(l).is_some() => {
+                let (spec, text) = self.outline_hit(l).unwrap();
+                let mut l2 = l.clone();
+                let call: Expr = syn::parse_str(&format!("{}({})", spec.name, spec.args)).unwrap_or_else(|e| fail(&format!("bad outline spec: {e}")));
+                l2.init.as_mut().unwrap().expr = Box::new(call);
+                let h = fnv64(&text);
+                self.note("R12", format!("`let {} = <iterator chain>` outlined into {}(..); chain text hash {h:016x}{}", spec.var, spec.name, if !spec.sha.is_empty() && spec.sha != format!("{h:016x}") { " CHANGED" } else { "" }));
+                if !spec.sha.is_empty() && spec.sha != format!("{h:016x}") {
+                    fail(&format!("outlined text of {} changed (hash {h:016x} != pinned {}): its contract is checked in lane K only; undecided here", spec.name, spec.sha));
+                }
+                vec![Stmt::Local(l2)]
+            }
+            Stmt::Local(l) if self.rule_map_sum_applies(l) => self.rule_map_sum(l).unwrap(),
             Stmt::Local(l) => {
                 // remember `let X = (a..b).rev();`
                 if let (Pat::Ident(pi), Some(init)) = (&l.pat, &l.init) {
@@ -533,6 +582,9 @@ impl<'a> Body<'a> {
             }
             Stmt::Expr(Expr::MethodCall(mc), Some(_)) => {
                 if let Some(v) = self.rule_extend_map(mc) {
+                    return v;
+                }
+                if let Some(v) = self.rule_entry(mc) {
                     return v;
                 }
                 // R17b: `x.m(|..| ..);` -> `let __cloK = |..| ..; x.m(__cloK);` when the unit file asks for it
@@ -634,6 +686,7 @@ impl<'a> Body<'a> {
         let src: Expr = match &*fl.expr {
             Expr::MethodCall(it) if it.method == "iter" && it.args.is_empty() => (*it.receiver).clone(),
             Expr::Reference(r) if r.mutability.is_none() => (*r.expr).clone(),
+            e if is_place(e) => e.clone(),
             _ => return None,
         };
         let k = self.fresh();
@@ -684,6 +737,91 @@ impl<'a> Body<'a> {
         Some(parse_stmts(quote!(
             let mut #it = #b;
             while #it > #a { #it -= 1; let #x = #it; #(#body)* }
+        )))
+    }
+
+    /// R8: for x in <expr of a repository iterator type> { B }  ->  explicit next() loop (the language-defined desugaring);
+    /// applies to the method names listed in opts.iter_ctors, e.g. { trigrams = "TrigramIter::new" } (R8b: the one-line
+    /// trait method `fn trigrams(&self) -> TrigramIter { TrigramIter::new(self) }` is inlined)
+    fn rule_custom_iter(&mut self, fl: &ExprForLoop) -> Option<Vec<Stmt>> {
+        let table = self.unit.opts.get("iter_ctors").and_then(|v| v.as_table())?;
+        let Expr::MethodCall(mc) = &*fl.expr else { return None };
+        let ctor = table.get(&mc.method.to_string())?.as_str()?;
+        let ctor: Expr = syn::parse_str(ctor).ok()?;
+        let recv = &mc.receiver;
+        let args = &mc.args;
+        let k = self.fresh();
+        let it = ident(&format!("__it{k}"));
+        let pat = &fl.pat;
+        let body = &fl.body.stmts;
+        self.note("R8", format!("for {} in {}.{}() -> explicit next() loop over {}", pat.to_token_stream(), recv.to_token_stream(), mc.method, ctor.to_token_stream()));
+        Some(parse_stmts(quote!(
+            let mut #it = #ctor(#recv, #args);
+            loop { match #it.next() { Some(#pat) => { #(#body)* } None => { break; } } }
+        )))
+    }
+
+    /// R11: let v = E.iter().map(|w| F).sum::<usize>();  ->  accumulating loop (so that the overflow check of `sum` is an obligation)
+    fn rule_map_sum(&mut self, l: &Local) -> Option<Vec<Stmt>> {
+        let init = l.init.as_ref()?;
+        let Expr::MethodCall(sum) = &*init.expr else { return None };
+        if sum.method != "sum" {
+            return None;
+        }
+        let Expr::MethodCall(map) = &*sum.receiver else { return None };
+        if map.method != "map" || map.args.len() != 1 {
+            return None;
+        }
+        let Expr::MethodCall(it) = &*map.receiver else { return None };
+        if it.method != "iter" {
+            return None;
+        }
+        let Expr::Closure(cl) = &map.args[0] else { return None };
+        if cl.inputs.len() != 1 {
+            return None;
+        }
+        let Pat::Ident(pi) = &cl.inputs[0] else { return None };
+        let src = &it.receiver;
+        let f = &cl.body;
+        let w = &pi.ident;
+        let pat = &l.pat;
+        let k = self.fresh();
+        let (acc, end, i) = (ident(&format!("__sum{k}")), ident(&format!("__end{k}")), ident(&format!("__i{k}")));
+        self.note("R11", format!("{}.iter().map(|{}| ..).sum() -> accumulating loop", src.to_token_stream(), w));
+        Some(parse_stmts(quote!(
+            let mut #acc: usize = 0;
+            let #end = #src.len();
+            for #i in 0..#end { let #w = &#src[#i]; #acc += #f; }
+            let #pat = #acc;
+        )))
+    }
+
+    /// R20: m.entry(k).and_modify(|v| B).or_insert_with(|| I);
+    fn rule_entry(&mut self, mc: &ExprMethodCall) -> Option<Vec<Stmt>> {
+        if mc.method != "or_insert_with" || mc.args.len() != 1 {
+            return None;
+        }
+        let Expr::MethodCall(am) = &*mc.receiver else { return None };
+        if am.method != "and_modify" || am.args.len() != 1 {
+            return None;
+        }
+        let Expr::MethodCall(en) = &*am.receiver else { return None };
+        if en.method != "entry" || en.args.len() != 1 {
+            return None;
+        }
+        let map = &en.receiver;
+        let key = &en.args[0];
+        let Expr::Closure(c1) = &am.args[0] else { return None };
+        let Expr::Closure(c2) = &mc.args[0] else { return None };
+        if c1.inputs.len() != 1 || !c2.inputs.is_empty() {
+            return None;
+        }
+        let v = &c1.inputs[0];
+        let b = &c1.body;
+        let init = &c2.body;
+        self.note("R20", "entry(k).and_modify(..).or_insert_with(..) -> contains_key / get_mut / insert".into());
+        Some(parse_stmts(quote!(
+            if #map.contains_key(&#key) { let #v = #map.get_mut(&#key).unwrap(); #b } else { #map.insert(#key, #init); }
         )))
     }
 
@@ -845,4 +983,14 @@ pub fn rename_idents(item: &mut Item, map: &std::collections::BTreeMap<String, S
     if r.hits > 0 {
         log.entries.push(("R24".into(), "-".into(), format!("module-private names renamed for the flat unit: {:?} ({} occurrences)", map, r.hits)));
     }
+}
+
+
+pub fn fnv64(s: &str) -> u64 {
+    let mut h: u64 = 0xcbf29ce484222325;
+    for b in s.bytes() {
+        h ^= b as u64;
+        h = h.wrapping_mul(0x100000001b3);
+    }
+    h
 }
